@@ -546,4 +546,95 @@ def cscIter {α} (zero : α) (M : Mat α) (nRows nCols cs : Nat) (B : Budget) :
   let csr ← transposeOnDisk M nRows none B
   csrIter zero csr nRows nCols cs
 
+/-! ### the iterator as a state machine
+
+`AnnDataRowIterator` is one object with a cursor (`self.r0`) and four
+operations: `next()` advances the cursor, `get_chunk`, `__getitem__` and
+`get_batch` are random access and must not touch it. -/
+
+/-- what an iterator reads through: `get_chunk` and `get_batch` of the
+underlying `CSRRowIterator` / `DenseArrayRowIterator` and the row count -/
+structure Reader (α : Type) where
+  nRows : Nat
+  getChunk : Nat → Nat → Except SpErr (Dense α)
+  getBatch : List Nat → Except SpErr (Dense α)
+
+inductive IterOp where
+  /-- `next(it)` -/
+  | next
+  /-- `it.get_chunk(r0, r1)` -/
+  | getChunk (r0 r1 : Nat)
+  /-- `it[i]`: rows `i ..< i+1` -/
+  | getItem (i : Nat)
+  /-- `it[[a, …, b]]`: rows `a ..< b+1` (only the first and last element of the
+  list are looked at) -/
+  | getItemList (xs : List Nat)
+  /-- `it.get_batch(rows)` -/
+  | getBatch (rows : List Nat)
+  deriving Repr, BEq, DecidableEq, Inhabited
+
+inductive IterOut (α : Type) where
+  /-- `StopIteration` -/
+  | stop
+  /-- `(block, r0, r1)` -/
+  | block (b : Dense α) (r0 r1 : Nat)
+  /-- result of `get_batch` -/
+  | batch (b : Dense α)
+  | err (e : SpErr)
+  deriving Repr, BEq, DecidableEq, Inhabited
+
+/-- `(block, r0, r1)` or the exception -/
+def chunkOut {α} (rd : Reader α) (r0 r1 : Nat) : IterOut α :=
+  match rd.getChunk r0 r1 with
+  | .ok b => .block b r0 r1
+  | .error e => .err e
+
+/-- one operation on an iterator with chunk size `cs` whose cursor is `cur`:
+the new cursor and what the caller gets -/
+def iterStep {α} (rd : Reader α) (cs : Nat) (cur : Nat) : IterOp → Nat × IterOut α
+  | .next =>
+    if cur ≥ rd.nRows then (cur, .stop)
+    else
+      let r1 := min rd.nRows (cur + cs)
+      match rd.getChunk cur r1 with
+      | .ok b => (r1, .block b cur r1)
+      | .error e => (cur, .err e)
+  | .getChunk r0 r1 => (cur, chunkOut rd r0 r1)
+  | .getItem i => (cur, chunkOut rd i (i + 1))
+  | .getItemList xs =>
+    match xs.head?, xs.getLast? with
+    | some a, some b => (cur, chunkOut rd a (b + 1))
+    | _, _ => (cur, .err .emptySlice)
+  | .getBatch rows =>
+    (cur, match rd.getBatch rows with
+          | .ok b => .batch b
+          | .error e => .err e)
+
+/-- a sequence of operations on one iterator object -/
+def iterRun {α} (rd : Reader α) (cs : Nat) : Nat → List IterOp → Nat × List (IterOut α)
+  | cur, [] => (cur, [])
+  | cur, op :: ops =>
+    let s := iterStep rd cs cur op
+    let r := iterRun rd cs s.1 ops
+    (r.1, s.2 :: r.2)
+
+/-- the rows delivered by `next()` in a run: the blocks paired with a `next` op -/
+def nextRows {α} : List IterOp → List (IterOut α) → Dense α
+  | .next :: ops, .block b _ _ :: outs => b ++ nextRows ops outs
+  | _ :: ops, _ :: outs => nextRows ops outs
+  | _, _ => []
+
+def csrReader {α} (zero : α) (M : Mat α) (nRows nCols : Nat) : Reader α :=
+  ⟨nRows, fun r0 r1 => loadCsr zero M nCols r0 r1, fun rows => csrGetBatch zero M nCols rows⟩
+
+def denseReader {α} (zero : α) (D : Dense α) (nCols : Nat) : Reader α :=
+  ⟨D.length, fun r0 r1 => .ok (slice D r0 r1), fun rows => denseGetBatch zero D nCols rows⟩
+
+/-- a CSC layer: the CSR reader over the scratch file written by
+`csc_to_csr_on_disk` when the iterator was created -/
+def cscReader {α} (zero : α) (M : Mat α) (nRows nCols : Nat) (B : Budget) :
+    Except SpErr (Reader α) := do
+  let csr ← transposeOnDisk M nRows none B
+  return csrReader zero csr nRows nCols
+
 end CTM.Sparse
